@@ -90,7 +90,7 @@ def unlocked_reevaluates(chk):
                             'primary target is never re-evaluated after its checksummed dependency was rebuilt' %
                             [(s['prog'], s['args'], [e for e in s['env']]) for s in w.spawns],
                     'witness': {'spawns': w.spawns},
-                    'files': STAMP_FILES, 'script': STAMP_SCRIPT, 'violated': stale_after_stamp}
+                    'files': STAMP_FILES, 'script': STAMP_SCRIPT, 'violated': 'stale_after_stamp'}
         return None
 
     def sample(outcome, val, path):
@@ -119,3 +119,6 @@ redo-ood 2>/dev/null | sed 's/^/OOD=/'
 
 def stale_after_stamp(out):
     return 'RC2=0' in out and 'TOP2=top of v1' in out
+
+
+PREDICATES = {'stale_after_stamp': stale_after_stamp}
